@@ -245,3 +245,94 @@ def dd_scenario(rnd, maxdepth=4):
     steps = [[{"op": "load", "e": 1, "script": "P", "ow": True}],
              [{"op": "solve", "e": 1, "r": 1, "goal": C("t", V(0), V(1), V(2)), "qnv": 3, "k": 0}]]
     return {"scripts": {"P": script}, "steps": steps, "keys": []}
+
+
+# ---------------------------------------------------------------- random API sessions
+def api_session(rnd, engines=1, length=10):
+    """a random sequence of API operations (loads, registrations, asserts through both routes, queries
+    advanced step by step, abandoned, interleaved with updates, clears) over unusual term shapes; the
+    machine spec/YP.tla decides every step"""
+    X, Y = V(0), V(1)
+    atoms = ["a", "b", "it's", "two words", "é", "[]", "A", "_u", "x1", "true"]
+
+    def term(d=2, nv=2):
+        r = rnd.random()
+        if d <= 0 or r < 0.35:
+            k = rnd.random()
+            if k < 0.5:
+                return A(rnd.choice(atoms))
+            if k < 0.65:
+                return I(rnd.choice([0, 1, 42, 10 ** 12]))
+            return V(rnd.randrange(nv))
+        if r < 0.6:
+            return C(rnd.choice(["f", "g", "two words"]), *[term(d - 1, nv) for _ in range(rnd.randint(1, 3))])
+        if r < 0.85:
+            return lst([term(d - 1, nv) for _ in range(rnd.randint(0, 3))])
+        return lst([term(d - 1, nv)], V(rnd.randrange(nv)))
+
+    scripts = {
+        "S1": {"p/1": [clause(C("p", A("s1"))), clause(C("p", X), call(C("d", X)))],
+               "r/2": [clause(C("r", X, Y), conj_(call(C("p", X)), call(C("p", Y)), call(C("\\=", X, Y))))]},
+        "S2": {"p/1": [clause(C("p", C("f", X)), and_(call(C("q", X)), CUT)), clause(C("p", A("s2")))],
+               "q/1": [clause(C("q", I(1))), clause(C("q", I(2)))]},
+        "S3": {"r/2": [clause(C("r", X, X))], "z/0": [clause(A("z"), call(C("assertz", C("d", A("fromz")))))],
+               "q/1": [clause(C("q", X), or_(then(call(C("d", X)), TRUE), call(C("=", X, A("none")))))]},
+    }
+    steps = []
+    live = []
+    rid = [0]
+
+    def newr():
+        rid[0] += 1
+        return rid[0]
+    for i in range(length):
+        e = rnd.randint(1, engines)
+        k = rnd.random()
+        if k < 0.12:
+            steps.append([{"op": "load", "e": e, "script": rnd.choice(sorted(scripts)), "ow": rnd.random() < 0.6}])
+        elif k < 0.27:
+            t = rnd.choice([C("d", term(2)), C("d", term(1), term(1)), A("flag"), C("p", term(1)), C("e", V(0), V(0))])
+            if rnd.random() < 0.5:
+                steps.append([{"op": "assert", "e": e, "term": t, "atEnd": rnd.random() < 0.7, "r": 0}])
+            else:
+                steps.append([{"op": "solve", "e": e, "r": newr(), "goal": C(rnd.choice(["assertz", "asserta"]), t), "qnv": 2, "k": 0}])
+        elif k < 0.45:
+            g = rnd.choice([C("p", X), C("r", X, Y), C("d", X), C("d", X, Y), C("q", X), A("z"), A("flag"), C("e", A("a"), X),
+                            C("findall", X, C("d", X), Y), C("call", A("p"), X), C("once", C("d", X)), C("d", term(1)), C("p", term(1))])
+            steps.append([{"op": "solve", "e": e, "r": newr(), "goal": g, "qnv": 2, "k": rnd.choice([0, 0, 1, 2])}])
+        elif k < 0.58:
+            g = rnd.choice([C("retract", C("d", X)), C("retract", C("d", term(1))), C("retractall", C("d", X)), C("retractall", C("d", X, Y)),
+                            C("retract", A("flag")), C("retractall", C("e", X, X))])
+            steps.append([{"op": "solve", "e": e, "r": newr(), "goal": g, "qnv": 2, "k": rnd.choice([0, 1])}])
+        elif k < 0.70:
+            r = newr()
+            g = rnd.choice([C("p", X), C("d", X), C("r", X, Y), C("retract", C("d", X)), C("q", X)])
+            steps.append([{"op": "query", "e": e, "r": r, "goal": g, "qnv": 2}])
+            live.append(r)
+        elif k < 0.88 and live:
+            r = rnd.choice(live)
+            steps.append([{"op": "next", "r": r}])
+        elif k < 0.94 and live:
+            r = live.pop(rnd.randrange(len(live)))
+            steps.append([{"op": "close", "r": r, "how": rnd.choice(["close", "drop", "raise", "break"])}])
+        elif k < 0.97:
+            steps.append([{"op": "clear", "e": e}])
+        else:
+            steps.append([{"op": "register", "e": e, "name": "q", "arity": 1, "style": rnd.choice(["inferred", "explicit", "explicit-varargs"]), "fid": "n%d" % i,
+                           "rows": [{"args": [A("py%d" % i)], "nv": 0}], "raise": {"call": 0, "row": 0}, "yields": rnd.random() < 0.5}])
+    for r in live:
+        steps.append([{"op": "next", "r": r}])
+        steps.append([{"op": "close", "r": r, "how": "close"}])
+    for e in range(1, engines + 1):
+        steps.append([{"op": "solve", "e": e, "r": newr(), "goal": C("d", X), "qnv": 1, "k": 0}])
+        steps.append([{"op": "solve", "e": e, "r": newr(), "goal": C("p", X), "qnv": 1, "k": 3}])
+    keys = [{"n": "d", "k": 1}, {"n": "d", "k": 2}, {"n": "flag", "k": 0}, {"n": "p", "k": 1}, {"n": "e", "k": 2}]
+    return {"engines": engines, "scripts": scripts, "steps": steps, "keys": keys}
+
+
+def conj_(*gs):
+    gs = list(gs)
+    r = gs[-1]
+    for g in reversed(gs[:-1]):
+        r = and_(g, r)
+    return r
